@@ -22,11 +22,14 @@ MODELLED = ["evo/main_traj.py:run", "evo/main_traj.py:load_trajectories", "evo/m
             "evo/core/trajectory.py:PosePath3D.motion_filter", "evo/core/trajectory.py:PosePath3D.project",
             "evo/core/trajectory.py:merge", "evo/core/lie_algebra.py:se3_inverse", "evo/core/lie_algebra.py:sim3_inverse",
             "evo/core/lie_algebra.py:sim3_scale", "evo/core/lie_algebra.py:is_se3", "evo/core/lie_algebra.py:is_so3",
-            "evo/core/lie_algebra.py:is_sim3", "evo/core/lie_algebra.py:sim3"]
+            "evo/core/lie_algebra.py:is_sim3", "evo/core/lie_algebra.py:sim3", "evo/core/filters.py:filter_by_motion",
+            "evo/core/sync.py:associate_trajectories", "evo/core/sync.py:matching_time_indices"]
 
 RULE = ("cases = (subcommand tum/kitti/euroc, 1..3 trajectory files [+ reference file, possibly listed among the inputs], option "
         "set, transformation file npy/txt/json holding an SE(3) or Sim(3) matrix); evo.main_traj.run(parser().parse_args(argv)) is "
-        "executed in-process in a scratch directory; (1) the plan returned by the Lean driver for the same option set is interpreted "
+        "executed in-process in a scratch directory; (0) on the exact-grid stream (dyadic stamps/positions, rational step lengths, 90-degree "
+        "rotations, thresholds hit exactly) the exported files are compared with trajRun of the Lean driver on the rational inputs "
+        "(kept / paired poses exactly via count and stamps, numbers to 1e-9; external numerics certified from evo's run); (1) the plan returned by the Lean driver for the same option set is interpreted "
         "with evo's core API on freshly read copies and every exported *.tum / *.kitti file must be bit-identical (die / exception "
         "class must agree as well); (2) oracle: an independent numpy re-computation of the documented pipeline (positions, stamps, "
         "rotation validity) must agree with the exported files to 1e-6; option sets: greedy pairwise-covering array over 20 factors "
@@ -135,8 +138,6 @@ def sample_opts(r, bias_valid):
             o["merge"], o["t_offset"] = False, 0.0
             if o["save"] != "kitti":
                 o["save"] = "kitti"
-        if o["tf_side"] == "both" and r.random() < 0.85:
-            o["tf_side"] = r.choice(["left", "right"])
         if r.random() < 0.3:
             o["tf_side"] = None
     return o
@@ -187,7 +188,7 @@ def build_case(r, o):
     if o["tf_side"]:
         tf = {"side": o["tf_side"], "form": o["tf_form"], **rand_tf(r, o["tf_kind"])}
         if o["tf_side"] == "both":
-            tf["other"] = rand_tf(r, "se3")
+            tf["other"] = rand_tf(r, r.choice(["se3", "sim3"]))
     case = {"sub": sub, "trajs": trajs, "ref": ref, "ref_listed": o["ref"] == "listed" and ref is not None,
             "downsample": o["downsample"], "motion_filter": o["motion_filter"], "merge": o["merge"], "t_offset": o["t_offset"],
             "sync": o["sync"], "align": o["align"], "correct_scale": o["correct_scale"], "n_to_align": o["n_to_align"],
@@ -197,11 +198,91 @@ def build_case(r, o):
     return case
 
 
+GRID_STEPS = [(3, 4, 0), (0, 3, 4), (4, 0, 3), (5, 0, 0), (0, 5, 0), (0, 0, 5), (1, 2, 2), (2, 1, 2), (2, 2, 1), (4, 3, 0)]
+GRID_FACTORS = dict(FACTORS, downsample=[None, 5, 6], motion_filter=[None, [1.25, 400.0], [0.0, 60.0], [2.5, 100.0]],
+                    t_max_diff=[0.01, 0.125], n_to_align=[-1, 6])
+
+
+def grid_rot(r):
+    R = np.eye(3)
+    for _ in range(3):
+        R = R @ rot_axis(r.randrange(3), r.randrange(4) * math.pi / 2)
+    return np.round(R)
+
+
+def build_grid_case(r, o):
+    """exact-grid stream: stamps multiples of 1/8, dyadic positions along steps of rational length, 90-degree rotations,
+    dyadic thresholds (hit exactly), transformations with 90-degree rotations, dyadic translations and power-of-two scales"""
+    sub = o["sub"]
+    exact_lengths = o["motion_filter"] is not None    # keep every step length rational: no dropped poses, no down-sampling before
+    if exact_lengths:
+        o = dict(o, downsample=None)
+    n = r.randint(6, 11)
+    t0 = r.choice([0.0, 100.0])
+    p = np.array([r.randint(-8, 8) / 4 for _ in range(3)])
+    base = []
+    R = grid_rot(r)
+    for k in range(n):
+        base.append((t0 + k / 8, p.copy(), R.copy()))
+        if r.random() < 0.6:
+            R = R @ np.round(rot_axis(r.randrange(3), r.choice([1, 2, 3]) * math.pi / 2))
+        st = r.choice(GRID_STEPS)
+        p = p + np.array([r.choice([-1, 1]) * c for c in st]) / r.choice([4, 8])
+    def mk(b, drop, rigid=None, scale=1.0):
+        out = {"stamps": [], "pos": [], "quat": []}
+        for k, (t, q, Rk) in enumerate(b):
+            if sub != "kitti" and drop and 0 < k < len(b) - 1 and r.random() < drop:
+                continue
+            q2, R2 = scale * q, Rk
+            if rigid is not None:
+                q2, R2 = rigid[0] @ q2 + rigid[1], rigid[0] @ R2
+            out["stamps"].append(t)
+            out["pos"].append([float(x) for x in q2])
+            out["quat"].append(rot_to_quat(R2))
+        return out
+    trajs = []
+    for k in range(o["ntraj"]):
+        rigid = (grid_rot(r), np.array([r.randint(-8, 8) / 2 for _ in range(3)]))
+        b = base if (o["merge"] is False or sub == "kitti") else [(t + (k * n + k) / 8, q, Rk) for t, q, Rk in base]
+        trajs.append(mk(b, 0.2 if (r.random() < 0.4 and not exact_lengths) else 0.0, rigid, r.choice([1.0, 1.0, 2.0])))
+    ref = mk(base, 0.15 if (r.random() < 0.3 and not exact_lengths) else 0.0) if o["ref"] != "none" else None
+    tf = None
+    if o["tf_side"]:
+        def gtf(kind):
+            return {"quat": rot_to_quat(grid_rot(r)), "t": [r.randint(-6, 6) / 2 for _ in range(3)],
+                    "scale": 1.0 if kind == "se3" else r.choice([2.0, 0.5, 4.0])}
+        tf = {"side": o["tf_side"], "form": o["tf_form"], **gtf(o["tf_kind"])}
+        if o["tf_side"] == "both":
+            tf["other"] = gtf(r.choice(["se3", "sim3"]))
+    return {"kind": "grid", "sub": sub, "trajs": trajs, "ref": ref, "ref_listed": o["ref"] == "listed" and ref is not None,
+            "downsample": o["downsample"], "motion_filter": o["motion_filter"], "merge": o["merge"], "t_offset": o["t_offset"],
+            "sync": o["sync"], "align": o["align"], "correct_scale": o["correct_scale"], "n_to_align": o["n_to_align"],
+            "align_origin": o["align_origin"], "t_max_diff": o["t_max_diff"], "tf": tf, "invert": o["invert"],
+            "propagate": o["propagate"], "plane": o["plane"], "save_tum": o["save"] in ("tum", "both"),
+            "save_kitti": o["save"] in ("kitti", "both")}
+
+
+def sample_grid_opts(r):
+    o = sample_opts(r, True)
+    for k in ("downsample", "motion_filter", "t_max_diff", "n_to_align"):
+        o[k] = r.choice(GRID_FACTORS[k])
+    if o["n_to_align"] != -1 and not (o["align"] or o["correct_scale"]):
+        o["n_to_align"] = -1
+    return o
+
+
 def gen_cases(ctx):
     r = ctx.rng
     # corpus: no processing option; F6 (inverted Sim(3) of scale 2); reference untouched by offset
     base = dict(sample_opts(r, True), sub="tum", ntraj=1, ref="none", downsample=None, motion_filter=None, merge=False, t_offset=0.0,
                 sync=False, align=False, correct_scale=False, n_to_align=-1, align_origin=False, tf_side=None, plane=None, save="both")
+    # F13 (fixed by 20269c0), first corpus case: both transformation flags: one pose at the origin heading 90 deg about z, left file = translation (1,0,0), right file = identity
+    c = build_case(r, dict(base, tf_side="both", tf_form="json", tf_kind="se3", save="tum"))
+    c["trajs"] = [{"stamps": [0.0, 0.125], "pos": [[0.0, 0.0, 0.0], [0.0, 1.0, 0.0]],
+                   "quat": [[math.sqrt(0.5), 0.0, 0.0, math.sqrt(0.5)]] * 2}]
+    c["tf"] = {"side": "both", "form": "json", "quat": [1.0, 0.0, 0.0, 0.0], "t": [1.0, 0.0, 0.0], "scale": 1.0,
+               "other": {"quat": [1.0, 0.0, 0.0, 0.0], "t": [0.0, 0.0, 0.0], "scale": 1.0}}
+    yield c
     yield build_case(r, base)
     yield build_case(r, dict(base, sub="euroc"))
     yield build_case(r, dict(base, sub="kitti", save="kitti"))
@@ -209,13 +290,6 @@ def gen_cases(ctx):
     c["tf"].update({"quat": [1.0, 0.0, 0.0, 0.0], "t": [0.0, 0.0, 0.0], "scale": 2.0})
     yield c
     yield build_case(r, dict(base, ref="file", t_offset=0.25, sync=True, t_max_diff=0.3))
-    # both transformation flags: one pose at the origin heading 90 deg about z, left file = translation (1,0,0), right file = identity
-    c = build_case(r, dict(base, tf_side="both", tf_form="json", tf_kind="se3", save="tum"))
-    c["trajs"] = [{"stamps": [0.0, 0.125], "pos": [[0.0, 0.0, 0.0], [0.0, 1.0, 0.0]],
-                   "quat": [[math.sqrt(0.5), 0.0, 0.0, math.sqrt(0.5)]] * 2}]
-    c["tf"] = {"side": "both", "form": "json", "quat": [1.0, 0.0, 0.0, 0.0], "t": [1.0, 0.0, 0.0], "scale": 1.0,
-               "other": {"quat": [1.0, 0.0, 0.0, 0.0], "t": [0.0, 0.0, 0.0], "scale": 1.0}}
-    yield c
     c = build_case(r, dict(base, ref="listed", downsample=5, plane="xy"))      # the only file is the reference
     c["trajs"] = []
     yield c
@@ -225,6 +299,8 @@ def gen_cases(ctx):
         yield build_case(r, o)
     for _ in range(90 if not ctx.thorough else 2300):
         yield build_case(r, sample_opts(r, r.random() < 0.9))
+    for _ in range(70 if not ctx.thorough else 800):
+        yield build_grid_case(r, sample_grid_opts(r))
 
 
 # ----------------------------------------------------------------------------- files
@@ -373,15 +449,20 @@ def run_evo(case, d):
 
 
 # ----------------------------------------------------------------------------- the model's plan, interpreted with evo's core API
-RANK = {"downsample": 0, "motion_filter": 1, "merge": 2, "t_offset": 3, "sync": 4, "align": 5, "align_origin": 6, "transform": 7,
-        "project": 8, "export_tum": 9, "export_kitti": 10}
+RANK = {"downsample": 0, "motion_filter": 1, "merge": 2, "t_offset": 3, "sync": 4, "align": 5, "align_origin": 6, "transform:left": 7,
+        "transform:right": 8, "project": 9, "export_tum": 10, "export_kitti": 11}
+
+
+def rank_of(step):
+    f = step.split(":")
+    return RANK[f[0] + ":" + f[1]] if f[0] == "transform" else RANK[f[0]]
 
 
 def fr(s):
     return float(core.parse_rat(s))
 
 
-def interpret(case, d, plan, refplan):
+def interpret(case, d, plan, refplan, rec=None):
     """stage by stage (rank order); within a stage the trajectories first, then the reference"""
     from evo.core import trajectory, sync, lie_algebra as lie
     from evo.tools import file_interface as fi
@@ -397,13 +478,38 @@ def interpret(case, d, plan, refplan):
             ref_tmp = {name: ref for name in trajs}
             # stages in rank order; association / alignment / origin alignment (ranks 4-6) form one stage that run()
             # executes trajectory by trajectory (only observable through which exception comes first)
-            stage = lambda s: 4 if RANK[s.split(":")[0]] in (4, 5, 6) else RANK[s.split(":")[0]]  # noqa: E731
+            stage = lambda s: 4 if rank_of(s) in (4, 5, 6) else rank_of(s)  # noqa: E731
+
+            if rec is not None:
+                rec["inputs"] = {name: (None if sub == "kitti" else [float(x) for x in t.timestamps], [p.copy() for p in t.poses_se3])
+                                 for name, t in trajs.items()}
+                rec["ref"] = None if ref is None else (None if sub == "kitti" else [float(x) for x in ref.timestamps],
+                                                       [p.copy() for p in ref.poses_se3])
+                rec["cert"] = {}
+
+            def cert(who, name):
+                return rec["cert"].setdefault("ref" if who == "ref" else name, {})
 
             def apply(s, who, name):
                 nonlocal trajs
                 f = s.split(":")
                 op = f[0]
                 t = ref if who == "ref" else trajs[name]
+                if rec is not None and op == "motion_filter":
+                    P = [p for p in t.poses_se3]
+                    cert(who, name)["mf"] = (
+                        [float(np.linalg.norm(a[:3, 3] - b[:3, 3])) for a, b in zip(P, P[1:])],
+                        [[float(lie.so3_log_angle(lie.relative_so3(a[:3, :3], b[:3, :3]))) for b in P] for a in P],
+                        float(np.deg2rad(fr(f[2]))))
+                if rec is not None and op == "align":
+                    r_a, t_a, s_a = t.align(ref_tmp[name], correct_scale=f[1] == "1", correct_only_scale=f[2] == "1", n=int(f[3]))
+                    cert(who, name)["ume"] = (np.array(r_a, dtype=float), np.array(t_a, dtype=float), float(s_a))
+                    return
+                if rec is not None and op == "project":
+                    t.project(trajectory.Plane(f[1]))
+                    sel = {"xy": ((0, 0), (1, 0)), "xz": ((0, 0), (0, 2)), "yz": ((1, 1), (2, 1))}[f[1]]
+                    cert(who, name)["dirs"] = [(float(p[sel[0]]), float(p[sel[1]])) for p in t.poses_se3]
+                    return
                 if op == "downsample":
                     t.downsample(int(f[1]))
                 elif op == "motion_filter":
@@ -484,6 +590,123 @@ def model_lines(case, aux):
     return lines
 
 
+def traj_tokens(stamps, poses):
+    st = stamps or []
+    return f"{1 if stamps is not None else 0} {core.ratlist(st)} {len(poses)} " + " ".join(pose12(p) for p in poses)
+
+
+def cert_tokens(c):
+    lens, ang, ar = c.get("mf", ([], [], 0.0))
+    R, t, sc = c.get("ume", (np.eye(3), np.zeros(3), 1.0))
+    dirs = c.get("dirs", [])
+    return " ".join([core.ratlist(lens), str(len(ang))] + [rat(x) for row in ang for x in row] + [rat(ar)] +
+                    [rat(R[i, j]) for i in range(3) for j in range(3)] + [rat(x) for x in t] + [rat(sc)] +
+                    [core.ratlist([x for cs in dirs for x in cs])])
+
+
+def run_line(case, d, rec):
+    """`C15 run …`: the CLI run on rational inputs, external numerics from evo's run (rec)"""
+    from evo.core import lie_algebra as lie
+    from evo.tools import file_interface as fi
+    mf = case["motion_filter"] or [0.0, 0.0]
+    tf = case["tf"]
+    tl = tr_ = "-"
+    scl = scr = 1.0
+    if tf:
+        with in_dir(d):
+            if tf["side"] in ("left", "both"):
+                L = fi.load_transform("tf_left." + tf["form"])
+                tl, scl = "+ " + pose12(L), float(lie.sim3_scale(L))
+            if tf["side"] in ("right", "both"):
+                Rm = fi.load_transform("tf_right." + tf["form"])
+                tr_, scr = "+ " + pose12(Rm), float(lie.sim3_scale(Rm))
+    names = list(rec["inputs"])
+    parts = [f"C15 run {flags_of(case)} {case['downsample'] or 0} {rat(mf[0])} {rat(mf[1])} {rat(case['t_offset'])} "
+             f"{rat(case['t_max_diff'])} {case['n_to_align']}", rat(scl), rat(scr), tl, tr_, str(len(names))]
+    parts += [traj_tokens(*rec["inputs"][n]) for n in names]
+    parts += [cert_tokens(rec["cert"].get(n, {})) for n in names]
+    parts.append(cert_tokens(rec["cert"].get("merged_trajectory", {})))
+    if rec["ref"] is not None:
+        parts += ["1", traj_tokens(*rec["ref"]), cert_tokens(rec["cert"].get("ref", {}))]
+    else:
+        parts.append("0")
+    return " ".join(parts)
+
+
+def parse_run(out):
+    """'OK n traj… hasRef [traj]' -> (list of (stamps|None, poses 3x4 Fractions), ref)"""
+    tok = out.split()
+    pos = [1]
+
+    def nxt():
+        pos[0] += 1
+        return tok[pos[0] - 1]
+
+    def traj():
+        has = nxt() == "1"
+        k = int(nxt())
+        st = [core.parse_rat(nxt()) for _ in range(k)]
+        m = int(nxt())
+        poses = [[core.parse_rat(nxt()) for _ in range(12)] for _ in range(m)]
+        return (st if has else None, poses)
+    n = int(nxt())
+    ts = [traj() for _ in range(n)]
+    ref = traj() if nxt() == "1" else None
+    return ts, ref
+
+
+def judge_run(ctx, case, evo, interp, out):
+    """evo_traj's exported files against trajRun (exact-grid stream): kept poses exactly (count and stamps), numbers to 1e-9"""
+    ctx.count("branch", "trajRun:" + out.split()[0] + (":" + out.split()[1] if not out.startswith("OK") else ""))
+    if evo["status"] == "raised GeometryException":       # Umeyama is a parameter of the model; run() works trajectory by
+        ctx.count("branch", "trajRun:not-compared-umeyama-failed")   # trajectory, so this error may precede a model error
+        return
+    if out.startswith("ERR"):
+        want = {"sync": ["raised SyncException"], "select": ["raised FilterException", "raised TrajectoryException"],
+                "align": ["raised TrajectoryException"], "no_stamps": [], "no_ref": [], "no_transform": []}[out.split()[1]]
+        if evo["status"] not in want:
+            ctx.mismatch(case, "trajRun stops with an error, evo_traj does not stop that way", evo["status"], out)
+        return
+    if not out.startswith("OK"):
+        ctx.mismatch(case, "trajRun gave no result", evo["status"], out[:80])
+        return
+    if evo["status"] != "ok":
+        ctx.mismatch(case, "trajRun succeeds, evo_traj does not", evo["status"] + " " + evo.get("message", ""), out[:80])
+        return
+    ts, ref = parse_run(out)
+    sub = case["sub"]
+    names = ["merged_trajectory"] if case["merge"] else [os.path.splitext(traj_name(sub, k))[0] for k in range(len(case["trajs"]))]
+    model = dict(zip(names, ts))
+    if ref is not None:
+        model[os.path.splitext(ref_name(sub))[0]] = ref
+    for fname, data in evo["files"].items():
+        stem = os.path.splitext(fname)[0]
+        if stem not in model:
+            ctx.mismatch(case, f"{fname} exported, trajRun has no such trajectory", sorted(evo["files"]), sorted(model))
+            return
+        mst, mposes = model[stem]
+        got = parse_export(fname, data)
+        if len(got["p"]) != len(mposes):
+            ctx.mismatch(case, f"{fname}: number of exported poses differs from trajRun", len(got["p"]), len(mposes))
+            return
+        if got["t"] is not None and [frac(x) for x in got["t"]] != mst:
+            ctx.mismatch(case, f"{fname}: exported timestamps differ from trajRun (kept / paired poses)", got["t"][:6],
+                         [float(x) for x in (mst or [])[:6]])
+            return
+        for k, mp in enumerate(mposes):
+            mp = [float(x) for x in mp]
+            P = [mp[3], mp[7], mp[11]]
+            Rm = np.array([mp[0:3], mp[4:7], mp[8:11]])
+            tol = 1e-9 * (1 + max(abs(x) for x in P))
+            if max(abs(a - b) for a, b in zip(got["p"][k], P)) > tol:
+                ctx.mismatch(case, f"{fname}: position {k} differs from trajRun", got["p"][k], P)
+                return
+            Rg = np.array(got["R"][k]) if "R" in got else quat_to_rot(got["q"][k][3], *got["q"][k][:3])
+            if np.abs(Rg - Rm).max() > 1e-9:
+                ctx.mismatch(case, f"{fname}: orientation {k} differs from trajRun", Rg.tolist(), Rm.tolist())
+                return
+
+
 def aux_of(case, d):
     """evo's own lie / transform functions on the loaded matrix (correspondence of invertTransform / applyTransform)"""
     tf = case["tf"]
@@ -505,7 +728,7 @@ def aux_of(case, d):
         T[:3, :3] = quat_to_rot(*q)
         T[:3, 3] = p
         poses.append(T)
-    rmul = tf["side"] in ("right", "both")
+    rmul = tf["side"] == "right"
     path = PosePath3D(poses_se3=[p.copy() for p in poses])
     path.transform(M, right_mul=rmul, propagate=case["propagate"])
     return {"M": M, "s": s, "is_se3": bool(lie.is_se3(M)), "poses": poses, "rmul": rmul,
@@ -515,6 +738,9 @@ def aux_of(case, d):
 # ----------------------------------------------------------------------------- oracle: independent numpy pipeline
 class Skip(Exception):
     pass
+
+
+EXACT = [False]     # exact-grid case: float operations are exact, a value within 1e-9 of a threshold *is* the threshold
 
 
 class Expect(Exception):
@@ -565,9 +791,9 @@ def o_motion_filter(tr, dist, ang_deg):
     ids, prev_a, prev_d = [0], 0, 0.0
     for i in range(1, tr["n"]):
         dd = acc[i] - prev_d
-        if abs(dd - dist) < 1e-9:
+        if abs(dd - dist) < 1e-9 and not EXACT[0]:
             raise Skip("borderline distance")
-        if dd >= dist:
+        if dd >= dist - (1e-9 if EXACT[0] else 0.0):
             ids.append(i); prev_a, prev_d = i, acc[i]
             continue
         a = o_angle(tr["T"][prev_a][:3, :3], tr["T"][i][:3, :3])
@@ -597,9 +823,9 @@ def o_associate(ref, tr, md):
         diffs = np.abs(long_ - t)
         j = int(np.argmin(diffs))
         srt = np.sort(diffs)
-        if abs(diffs[j] - md) < 1e-9 or (len(srt) > 1 and 0 < srt[1] - srt[0] < 1e-9):
+        if not EXACT[0] and (abs(diffs[j] - md) < 1e-9 or (len(srt) > 1 and 0 < srt[1] - srt[0] < 1e-9)):
             raise Skip("borderline association")
-        if diffs[j] <= md and (j not in best or diffs[j] < best[j][1]):
+        if diffs[j] <= md + (1e-9 if EXACT[0] else 0.0) and (j not in best or diffs[j] < best[j][1]):
             best[j] = (i, diffs[j])
     pairs = sorted((i, j) for j, (i, _) in best.items())
     if not pairs:
@@ -680,6 +906,7 @@ def o_transform(tr, M, right, propagate, rigid):
 def oracle_pipeline(case):
     """{file stem: (stamps or None, positions)} | ('die', reason)"""
     sub = case["sub"]
+    EXACT[0] = case.get("kind") == "grid"
     both_alts = []
     trajs = {os.path.splitext(traj_name(sub, k))[0]: o_load(t, sub) for k, t in enumerate(case["trajs"])}
     ref = o_load(case["ref"], sub) if case["ref"] is not None else None
@@ -716,25 +943,15 @@ def oracle_pipeline(case):
                 trajs[k] = o_left(trajs[k], r_k["T"][0] @ np.linalg.inv(trajs[k]["T"][0]))
     tf = case["tf"]
     if tf:
-        # documented (help texts, the only documentation): the file of --transform_left is applied left-multiplicatively,
-        # the file of --transform_right right-multiplicatively.  With both flags every reading keeps that rule
-        # (both applied / the left one only / the right one only): the oracle returns all three candidates.
+        # documented (help texts; fix 20269c0): the file of --transform_left is applied left-multiplicatively, the file of
+        # --transform_right right-multiplicatively, the left one first (L.P.R); --invert_transform inverts both
         inv = (lambda X: np.linalg.inv(X)) if case["invert"] else (lambda X: X)
-        rigid = tf["scale"] == 1.0
-        if tf["side"] == "both":
-            L, R_ = inv(tf_matrix(tf)), inv(tf_matrix(tf["other"]))
-            alts = []
-            for use_l, use_r in ((True, True), (True, False), (False, True)):
-                cand = {}
-                for k, t in trajs.items():
-                    u = o_transform(t, L, False, False, rigid) if use_l else t
-                    cand[k] = o_transform(u, R_, True, case["propagate"], True) if use_r else u
-                alts.append(cand)
-            trajs = alts[0]
-            both_alts = alts[1:]
-        else:
-            M = inv(tf_matrix(tf))
-            trajs = {k: o_transform(t, M, tf["side"] == "right", case["propagate"], rigid) for k, t in trajs.items()}
+        if tf["side"] in ("left", "both"):
+            trajs = {k: o_transform(t, inv(tf_matrix(tf)), False, False, tf["scale"] == 1.0) for k, t in trajs.items()}
+        if tf["side"] in ("right", "both"):
+            other = tf["other"] if tf["side"] == "both" else tf
+            trajs = {k: o_transform(t, inv(tf_matrix(other)), True, case["propagate"], other["scale"] == 1.0)
+                     for k, t in trajs.items()}
     if case["save_tum"] and sub == "kitti":
         return ("die", "tum-without-stamps")
     outs = []
@@ -830,15 +1047,10 @@ def oracle(ctx, case, evo):
     if evo["status"] != "ok":
         ctx.fail(case, "runs-and-exports", f"evo_traj {evo['status']} {evo.get('message', '')} for a valid option set", tags)
         return "ok"
-    fails = [compare_export(case, evo, w) for w in want]
-    if all(f is not None for f in fails):
-        if len(want) > 1:
-            tags["tf_side"] = "both"
-            ctx.fail(case, "transform-file-side-as-documented",
-                     "--transform_left and --transform_right together: the export is neither (left file left-multiplied and right file "
-                     "right-multiplied) nor one of them alone applied on its documented side; vs both applied: " + fails[0][1], tags)
-        else:
-            ctx.fail(case, fails[0][0], fails[0][1], tags)
+    f = compare_export(case, evo, want[0])
+    if f is not None:
+        both = bool(case["tf"]) and case["tf"]["side"] == "both"
+        ctx.fail(case, "transform-file-side-as-documented" if both and f[0] == "exported-equals-documented-pipeline" else f[0], f[1], tags)
     return "ok"
 
 
@@ -924,18 +1136,25 @@ def evaluate(ctx, cases):
         work.append((case, d, evo, aux, len(lines), len(ls)))
         lines += ls
     outs = core.run_driver(lines)
+    runs = []
     for case, d, evo, aux, a, k in work:
         o = outs[a:a + k]
         interp = {"status": "-", "files": {}}
-        if o[0].startswith("OK"):
-            plan, refplan = [x.split() for x in o[0][3:].split("|")]
-            plan = [] if plan == ["-"] else plan
-            refplan = [] if refplan == ["-"] else refplan
-            interp = interpret(case, d, plan, refplan)
         try:
+            if o[0].startswith("OK"):
+                plan, refplan = [x.split() for x in o[0][3:].split("|")]
+                plan = [] if plan == ["-"] else plan
+                refplan = [] if refplan == ["-"] else refplan
+                rec = {} if case.get("kind") == "grid" else None
+                interp = interpret(case, d, plan, refplan, rec)
+                if rec is not None and "inputs" in rec:
+                    runs.append((case, evo, interp, run_line(case, d, rec)))
             judge(ctx, case, evo, interp, aux, o)
         finally:
             shutil.rmtree(d, ignore_errors=True)
+    if runs:
+        for (case, evo, interp, _), out in zip(runs, core.run_driver([r[3] for r in runs])):
+            judge_run(ctx, case, evo, interp, out)
 
 
 def shrink(case):
@@ -972,8 +1191,8 @@ def check(ctx):
                                      "the numerical content of each step (Umeyama, association, filters, projection) belongs to C03-C05, C10, C11, C14",
                                      "invert_is_true_inverse needs scale = 1 or a scale that is_se3 does not accept as 1 (|s^2-1| > ~1e-5): inside the "
                                      "tolerance evo treats the matrix as SE(3) (kernel-checked example in Props/C15.lean)",
-                                     "--transform_left together with --transform_right loads the left file and right-multiplies it (modelled as the code "
-                                     "does; outside the documented use, skipped by the oracle)",
+                                     "trajRun: Umeyama triple, motion-filter lengths/angles, sim3_scale and projected headings are certified parameters taken "
+                                     "from evo's own run; compared with the CLI on the exact-grid stream only",
                                      "bag / bag2 subcommands, plotting and --save_table are outside this property"],
                        assumptions=["input files have distinct stems; timestamps of merged inputs are distinct",
                                     "oracle decisions within 1e-9 of a filter / association threshold are skipped"])
